@@ -7,7 +7,11 @@
 //	    mode advk=S   []int keys,    values []uint16 / []int64,  less(i,j) = mix(S,keys[i],keys[j])
 //	  -> k <keys> v <value ids> n <#Less> h <hash of Less log> [log i:j:r ...] ; d <max nesting of quickSort_func> hs <heapSort seen>
 //	     (the part after " ; " is measured from the call stack inside less and is not part of the model comparison)
-//	unique <int|str> <elems>
+//	    mode intb     []int keys, values []int64;  strb: []string keys, values []string
+//	    mode spre|ssuf|swin|smix   []string keys that are substrings of ONE shared string (prefixes / suffixes / windows /
+//	                  prefixes mixed with fresh copies), values []struct
+//	multi <kcap> <vcap> | <mode> <keys> <nv> | ...   several SliceBy calls on the SAME backing arrays (see runMulti)
+//	unique <int|str|pre|suf|win|mix> <elems>     (pre.. = UniqueString on substrings of one shared string)
 //	  -> r <returned slice> b <backing array after the call>
 package main
 
@@ -118,6 +122,166 @@ func stackInfo() (depth int, heap bool) {
 	return
 }
 
+// backing arrays reused by the steps of one `multi` line (nil = fresh slices for every call)
+type backing struct {
+	ints []int
+	strs []string
+	vstr []string
+	vrec []rec
+	vi64 []int64
+}
+
+func newBacking(kcap, vcap int) *backing {
+	return &backing{ints: make([]int, kcap), strs: make([]string, kcap), vstr: make([]string, vcap),
+		vrec: make([]rec, vcap), vi64: make([]int64, vcap)}
+}
+
+func (b *backing) intKeys(keys []int) []int {
+	if b == nil {
+		return append([]int{}, keys...)
+	}
+	ks := b.ints[:len(keys)]
+	copy(ks, keys)
+	return ks
+}
+
+func (b *backing) strKeys(keys []int, kind string) []string {
+	var ks []string
+	if b == nil {
+		ks = make([]string, len(keys))
+	} else {
+		ks = b.strs[:len(keys)]
+	}
+	for i, k := range keys {
+		ks[i] = encShared(kind, k, i)
+	}
+	return ks
+}
+
+func (b *backing) valStr(nv int) []string {
+	var vs []string
+	if b == nil {
+		vs = make([]string, nv)
+	} else {
+		vs = b.vstr[:nv]
+	}
+	for i := range vs {
+		vs[i] = "v" + strconv.Itoa(i)
+	}
+	return vs
+}
+
+func (b *backing) valRec(nv int) []rec {
+	var vs []rec
+	if b == nil {
+		vs = make([]rec, nv)
+	} else {
+		vs = b.vrec[:nv]
+	}
+	for i := range vs {
+		vs[i] = rec{A: int32(i), B: "x", ID: i}
+	}
+	return vs
+}
+
+func (b *backing) valI64(nv int) []int64 {
+	var vs []int64
+	if b == nil {
+		vs = make([]int64, nv)
+	} else {
+		vs = b.vi64[:nv]
+	}
+	for i := range vs {
+		vs[i] = int64(i)
+	}
+	return vs
+}
+
+// strings that share memory: all encodings are injective and order preserving on their domain
+//
+//	enc  independent strings (zero padded decimal)                       any e
+//	pre  prefixes sharedA[:e+1] of one string: EQUAL data pointer, different lengths     0 <= e < 4096
+//	suf  suffixes sharedDesc[93-e:]: same end, different start                           0 <= e <= 93
+//	win  overlapping windows sharedAsc[e:e+10]                                            0 <= e <= 93
+//	mix  like pre, but every odd position gets a fresh copy (equal contents at different addresses)
+var sharedA = strings.Repeat("a", 4096)
+var sharedAsc, sharedDesc = func() (string, string) {
+	a := make([]byte, 94)
+	d := make([]byte, 94)
+	for i := range a {
+		a[i] = byte(33 + i)
+		d[i] = byte(126 - i)
+	}
+	return string(a) + "~~~~~~~~~~", string(d)
+}()
+
+func encShared(kind string, e, pos int) string {
+	switch kind {
+	case "pre":
+		return sharedA[:e+1]
+	case "mix":
+		if pos%2 == 1 {
+			return strings.Clone(sharedA[:e+1])
+		}
+		return sharedA[:e+1]
+	case "suf":
+		return sharedDesc[93-e:]
+	case "win":
+		return sharedAsc[e : e+10]
+	}
+	return encStr(e)
+}
+
+func decShared(kind string, s string) int {
+	switch kind {
+	case "pre", "mix":
+		return len(s) - 1
+	case "suf", "win":
+		return int(s[0]) - 33
+	}
+	return decStr(s)
+}
+
+func sortCall[KT any, VT any](m *meter, inRange func(i, j int), ks []KT, vs []VT, lt func(a, b KT) bool) func() {
+	return func() {
+		sortx.SliceBy(ks, vs, func(i, j int) bool {
+			inRange(i, j)
+			r := lt(ks[i], ks[j])
+			m.note(i, j, r)
+			return r
+		})
+	}
+}
+
+// multi <kcap> <vcap> | <mode> <keys> <nv> | <mode> <keys> <nv> | ...
+// every step re-slices the SAME backing arrays (keys and values) to the step's lengths, overwrites the contents and
+// calls SliceBy; the steps' observations are joined by " | " (the model treats every step as an independent call)
+func runMulti(c *hx.Ctx, line string) string {
+	parts := strings.Split(line, " | ")
+	h := strings.Fields(parts[0])
+	if len(h) != 3 {
+		return "bad-op"
+	}
+	kcap, _ := strconv.Atoi(h[1])
+	vcap, _ := strconv.Atoi(h[2])
+	bk := newBacking(kcap, vcap)
+	var out []string
+	for _, st := range parts[1:] {
+		w := strings.Fields(st)
+		if len(w) != 3 {
+			return "bad-op"
+		}
+		keys := parseInts(w[1])
+		nv, _ := strconv.Atoi(w[2])
+		if len(keys) > kcap || nv > vcap || nv < 0 {
+			return "bad-op"
+		}
+		out = append(out, runSlice(c, w[0], keys, nv, bk))
+	}
+	c.Count("multi_steps_" + strconv.Itoa(len(out)))
+	return strings.Join(out, " | ")
+}
+
 type meter struct {
 	n        int // min(len keys, len values)
 	count    int
@@ -173,7 +337,7 @@ func (m *meter) note(i, j int, r bool) {
 	}
 }
 
-func runSlice(c *hx.Ctx, mode string, keys []int, nv int) (res string) {
+func runSlice(c *hx.Ctx, mode string, keys []int, nv int, bk *backing) (res string) {
 	n := len(keys)
 	if nv < n {
 		n = nv
@@ -191,58 +355,60 @@ func runSlice(c *hx.Ctx, mode string, keys []int, nv int) (res string) {
 	}
 	base, arg, _ := strings.Cut(mode, "=")
 	switch base {
-	case "int":
-		ks := append([]int{}, keys...)
-		vs := make([]string, nv)
-		for i := range vs {
-			vs[i] = "v" + strconv.Itoa(i)
-		}
-		call = func() {
-			sortx.SliceBy(ks, vs, func(i, j int) bool {
-				inRange(i, j)
-				r := ks[i] < ks[j]
-				m.note(i, j, r)
-				return r
-			})
-		}
+	case "int", "intb":
+		ks := bk.intKeys(keys)
 		finalKeys = func() []int { return ks }
-		finalVals = func() []int {
-			out := make([]int, nv)
-			for i, s := range vs {
-				out[i], _ = strconv.Atoi(s[1:])
+		if base == "int" {
+			vs := bk.valStr(nv)
+			call = sortCall(m, inRange, ks, vs, func(a, b int) bool { return a < b })
+			finalVals = func() []int {
+				out := make([]int, nv)
+				for i, s := range vs {
+					out[i], _ = strconv.Atoi(s[1:])
+				}
+				return out
 			}
-			return out
+		} else {
+			vs := bk.valI64(nv)
+			call = sortCall(m, inRange, ks, vs, func(a, b int) bool { return a < b })
+			finalVals = func() []int {
+				out := make([]int, nv)
+				for i, v := range vs {
+					out[i] = int(v)
+				}
+				return out
+			}
 		}
-	case "str":
-		ks := make([]string, len(keys))
-		for i, k := range keys {
-			ks[i] = encStr(k)
-		}
-		vs := make([]rec, nv)
-		for i := range vs {
-			vs[i] = rec{A: int32(i), B: "x", ID: i}
-		}
-		call = func() {
-			sortx.SliceBy(ks, vs, func(i, j int) bool {
-				inRange(i, j)
-				r := ks[i] < ks[j]
-				m.note(i, j, r)
-				return r
-			})
-		}
+	case "str", "strb", "spre", "ssuf", "swin", "smix":
+		kind := map[string]string{"str": "enc", "strb": "enc", "spre": "pre", "ssuf": "suf", "swin": "win", "smix": "mix"}[base]
+		ks := bk.strKeys(keys, kind)
 		finalKeys = func() []int {
 			out := make([]int, len(ks))
 			for i, s := range ks {
-				out[i] = decStr(s)
+				out[i] = decShared(kind, s)
 			}
 			return out
 		}
-		finalVals = func() []int {
-			out := make([]int, nv)
-			for i, r := range vs {
-				out[i] = r.ID
+		if base == "strb" {
+			vs := bk.valStr(nv)
+			call = sortCall(m, inRange, ks, vs, func(a, b string) bool { return a < b })
+			finalVals = func() []int {
+				out := make([]int, nv)
+				for i, s := range vs {
+					out[i], _ = strconv.Atoi(s[1:])
+				}
+				return out
 			}
-			return out
+		} else {
+			vs := bk.valRec(nv)
+			call = sortCall(m, inRange, ks, vs, func(a, b string) bool { return a < b })
+			finalVals = func() []int {
+				out := make([]int, nv)
+				for i, r := range vs {
+					out[i] = r.ID
+				}
+				return out
+			}
 		}
 	case "adv":
 		seed, _ := strconv.ParseUint(arg, 10, 64)
@@ -337,6 +503,21 @@ func runUnique(kind string, elems []int) string {
 			return out
 		}
 		return "r " + showInts(dec(r)) + " b " + showInts(dec(a))
+	case "pre", "suf", "win", "mix":
+		// UniqueString on strings that are substrings of ONE shared string
+		a := make([]string, len(elems))
+		for i, e := range elems {
+			a[i] = encShared(kind, e, i)
+		}
+		r := sortx.UniqueString(a)
+		dec := func(x []string) []int {
+			out := make([]int, len(x))
+			for i, s := range x {
+				out[i] = decShared(kind, s)
+			}
+			return out
+		}
+		return "r " + showInts(dec(r)) + " b " + showInts(dec(a))
 	}
 	return "bad-op"
 }
@@ -354,7 +535,9 @@ func exec(c *hx.Ctx, line string) (res string) {
 		if err != nil || nv < 0 {
 			return "bad-op"
 		}
-		return runSlice(c, w[1], parseInts(w[2]), nv)
+		return runSlice(c, w[1], parseInts(w[2]), nv, nil)
+	case len(w) > 3 && w[0] == "multi":
+		return runMulti(c, line)
 	case len(w) == 3 && w[0] == "unique":
 		return runUnique(w[1], parseInts(w[2]))
 	}
